@@ -9,6 +9,7 @@ package main
 
 import (
 	"fmt"
+	ristretto "github.com/dgraph-io/ristretto/v2"
 	"runtime"
 	"strings"
 	"sync"
@@ -213,6 +214,14 @@ func init() { registry["C15D"] = runC15Directed }
 func runC15Directed(c *Ctx) {
 	r := c.R
 	r.Rule = "directed: applier held, write buffer of size B in {1,2,4,16} filled until a Set is refused, W in {1,3,8} goroutines blocked in Wait on the full buffer (verified in the goroutine profile), then Clear or Close with tokens granted one at a time; distinct by (B, W, Clear/Close, items applied before the applier stopped)"
+	var wg sync.WaitGroup
+	defer wg.Wait()
+	for rep := 0; rep < c.N(2, 8); rep++ {
+		if rep%c.NParts == c.Part {
+			wg.Add(1)
+			go func(rep int) { defer wg.Done(); c15FreshVsCleared(c, 1+rep%2, uint64(rep)) }(rep)
+		}
+	}
 	idx := 0
 	for rep := 0; rep < c.N(2, 12); rep++ {
 		for _, B := range []int{1, 2, 4, 16} {
@@ -361,4 +370,123 @@ func c15BlockedWaiters(c *Ctx, B, W int, closeIt bool, stream uint64) {
 	r.Obs("blocked_waiters_released", int64(W))
 	r.DistinctKey("%s/applied%d", name, min(applied, 4))
 	r.Sample(2, map[string]any{"case": name, "items_applied_before_stop": applied})
+}
+
+// c15FreshVsCleared: "a cleared cache behaves as a fresh one", decided differentially: one deterministic script
+// (single client, Wait after every step, uniform access estimates so that admission does not depend on which
+// victims the sampling picks) runs on a fresh cache and again after each Clear of the same cache; everything the
+// script can observe - public metrics, RemainingCost, number of resident keys, numbers of callbacks - must be equal.
+func c15FreshVsCleared(c *Ctx, nclears int, stream uint64) {
+	r := c.R
+	r.Eval(1)
+	name := fmt.Sprintf("c15-fresh-vs-cleared-%dclears", nclears)
+	c.J.Case(name)
+	ristretto.VerifSetBucketSeconds(1)
+	l, err := lab.NewLab(lab.CacheCfg{NumCounters: 1000, MaxCost: 20, BufferItems: 64, IgnoreInternalCost: true, Metrics: true, KeyKind: "uint64", NKeys: 64, TTLTick: 1})
+	if err != nil {
+		r.Inconc(1)
+		return
+	}
+	defer l.Forget()
+	defer l.C.Close()
+	cl := l.NewClient()
+	type obs struct {
+		names []string
+		vals  []int64
+	}
+	script := func() (o obs, ok bool) {
+		add := func(n string, v int64) { o.names = append(o.names, n); o.vals = append(o.vals, v) }
+		n0 := l.NumCallbacks()
+		set := func(k int, cost int64, ttl time.Duration) uint64 {
+			v := cl.NextVal(k)
+			cl.Set(k, v, cost, ttl)
+			cl.Wait()
+			return v
+		}
+		for k := 0; k < 10; k++ {
+			set(k, 1, 0)
+		}
+		for k := 0; k < 3; k++ {
+			set(k, 2, 0) // cost-raising overwrites
+		}
+		for k := 0; k < 5; k++ {
+			cl.Del(k) // all entries whose cost is not 1 leave before anything is evicted: the number of victims is then fixed
+		}
+		cl.Wait()
+		hits := int64(0)
+		for _, k := range []int{5, 6, 7} {
+			if _, ok := cl.Get(k); ok {
+				hits++
+			}
+		}
+		tv := set(10, 1, 300*time.Millisecond)
+		deadline := time.Now().Add(5 * time.Second)
+		for {
+			if ev, _ := valueEvents(l.CallbacksSince(n0), tv); ev > 0 {
+				break
+			}
+			if time.Now().After(deadline) {
+				return o, false // bounded progress of the sweep is C14's business
+			}
+			time.Sleep(50 * time.Millisecond)
+		}
+		for k := 20; k < 45; k++ {
+			set(k, 1, 0) // 15 fit, the other 10 need one victim each (all estimates are equal: nobody is turned away)
+		}
+		set(46, 21, 0) // larger than MaxCost
+		for _, k := range []int{5, 50, 51} {
+			cl.Get(k) // whether 5 survived the evictions depends on the sampling: only Hits+Misses is deterministic
+		}
+		m := l.C.Metrics()
+		add("hits before any eviction", hits)
+		add("Hits+Misses", int64(m.Hits()+m.Misses()))
+		add("KeysAdded", int64(m.KeysAdded()))
+		add("KeysUpdated", int64(m.KeysUpdated()))
+		add("KeysEvicted", int64(m.KeysEvicted()))
+		add("CostAdded", int64(m.CostAdded()))
+		add("SetsDropped", int64(m.SetsDropped()))
+		add("SetsRejected", int64(m.SetsRejected()))
+		l.C.Pause()
+		snap := l.C.Snapshot()
+		rc := l.C.RemainingCost()
+		l.C.Resume()
+		add("CostAdded-CostEvicted-used", int64(m.CostAdded())-int64(m.CostEvicted())-snap.Used)
+		add("RemainingCost+used", rc+snap.Used)
+		var ne, nr, nx int64
+		for _, e := range l.CallbacksSince(n0) {
+			switch e.Kind {
+			case lab.EvOnEvict:
+				ne++
+			case lab.EvOnReject:
+				nr++
+			case lab.EvOnExit:
+				nx++
+			}
+		}
+		add("OnEvict calls", ne)
+		add("OnReject calls", nr)
+		add("OnExit calls", nx)
+		return o, true
+	}
+	fresh, ok := script()
+	if !ok {
+		r.Inconc(1)
+		return
+	}
+	for i := 1; i <= nclears; i++ {
+		cl.Clear()
+		again, ok := script()
+		if !ok {
+			r.Inconc(1)
+			return
+		}
+		for j := range fresh.vals {
+			r.Obs("fresh_vs_cleared_comparisons", 1)
+			if fresh.vals[j] != again.vals[j] {
+				r.Violate("C15/cleared-differs-from-fresh", fmt.Sprintf("[%s] the same script run on the fresh cache and again after Clear #%d: %s = %d on the fresh cache, %d on the cleared one (all observations: %v fresh %v cleared %v)", name, i, fresh.names[j], fresh.vals[j], again.vals[j], fresh.names, fresh.vals, again.vals), name)
+				return
+			}
+		}
+	}
+	r.DistinctKey("%s/%v", name, fresh.vals)
 }
